@@ -164,3 +164,51 @@ def explain(obname, args):
 OBLIGATIONS.append(Ob('after_tainted', ob_after_tainted, ['len(s) <= 2'], timeout=tier(250, 900), data='s: str len <= 2', selectors='tainted value first, then the symbolic untainted value, top level and inside dtml-in'))
 OBLIGATIONS.append(Ob('nonstring_values', ob_nonstring_values, ['0 <= j < %d' % len(VPOOL), '0 <= kind <= 4'], timeout=tier(150, 600), data='message picked from %r' % VPOOL,
                       selectors='KeyError / ValueError / object with __str__ -> str / -> bytes / exception with object message, through six quoting forms'))
+
+
+# ---------------------------------------------------------------- wave 3: quoting decisions are per value, also across renderings
+from crosshair.tracers import NoTracing      # noqa: E402
+
+SRC_HIST = ('<dtml-var x html_quote null="">|<dtml-var name=x html_quote missing="-">|<dtml-var x html_quote size=99>|<dtml-var x fmt=html-quote null="">|'
+            '&dtml-x;|<dtml-var x html_quote>|<dtml-var x html_quote spacify>|<dtml-var "x" html_quote upper>')
+SRC_HIST_S = '%(x html_quote null="")s|%(x html_quote)s'
+
+
+HALPHA = ['&', '<', '>', '"', "'", 'a', '_', '\xe9', '']
+
+
+def _hpick(k):
+    lo, hi = 0, len(HALPHA)
+    while hi - lo > 1:
+        mid = (lo + hi) // 2
+        if k < mid:
+            hi = mid
+        else:
+            lo = mid
+    return HALPHA[lo]
+
+
+def ob_history_tainted_then_plain(k1: int, k2: int, k3: int, n_tainted: int) -> bool:
+    """one template object, rendered n times with a tainted value and THEN with an ordinary string: every quoting form still escapes the
+    ordinary string (the first renderings leave nothing behind on the compiled tags)"""
+    s = _hpick(k1) + _hpick(k2) + _hpick(k3)
+    nt = 0 if n_tainted <= 0 else 1 if n_tainted == 1 else 2
+    with NoTracing():
+        t, ts = HTML(SRC_HIST), String(SRC_HIST_S)
+        t.cook()
+        ts.cook()
+        for i in range(nt):
+            t(x=TaintedString('<i>%d' % i))
+            ts(x=TaintedString('<i>%d' % i))
+        e = ref_escape(s)
+        es = ref_escape(s).replace('_', ' ')
+        eu = ref_escape(s).upper()          # documented modifier order: html_quote first, case mapping later
+        if not s:
+            return t(x=s) == '|||||||' and ts(x=s) == '|'
+        return t(x=s) == '|'.join([e, e, e, e, e, e, es, eu]) and ts(x=s) == e + '|' + e
+
+
+OBLIGATIONS.append(Ob('history_tainted_then_plain', ob_history_tainted_then_plain, ['0 <= k1 < 9', '0 <= k2 < 9', '0 <= k3 < 9', '0 <= n_tainted <= 2'], timeout=tier(250, 900), path_timeout=60,
+                      data='-', selectors='value = 3 characters each selected from %r; number of earlier renderings with a tainted value 0..2; eight quoting forms (full-path html_quote with null / '
+                      'missing / size / spacify / upper, fmt=html-quote, entity, simple form) and two EPFS forms on ONE fresh template object' % HALPHA,
+                      stubs='template compiled and rendered untraced once the selectors are fixed on the path'))
